@@ -5,6 +5,6 @@ CONSTANTS
   MaxDefs = 4
   MaxFiles = 3
   PoolSel = {1,2,3,4,5,6,7,8,9,10,11,12,13,14,15,16,22}
-INVARIANTS TypeOK MeasureNat TempIsStack EmittedOnce TemporariesEmpty TopoOrder CycleReported OrderIndependent FixedPointScoped EmitCase EmitDb CountAmbiguous
+INVARIANTS TypeOK MeasureNat TempIsStack EmittedOnce TemporariesEmpty TopoOrder TopoOrderStrict CycleReported OrderIndependent ForwardRefsScoped FixedPointScoped EmitCase EmitDb CountAmbiguous CountAmbiguousFwd
 PROPERTIES Progress
 CHECK_DEADLOCK FALSE
